@@ -14,7 +14,7 @@ COMPOSE = {
 }
 CI_RELEASE = {"name": [None, 5], "short": [None, 5], "version": ["1.", "1..2", None, 5, "1a", ""], "type": ["bogus", None, "GA"],
               "is_layered": ["yes", None, 1], "internal": ["no", None]}
-CI_BP = {"name": [None, 5], "short": [None, 5], "version": ["1.", None, "1a"], "type": ["bogus", None]}
+CI_BP = {"name": [None, 5], "short": [None, 5], "version": ["1.", None, "1a"], "type": ["bogus", None, "GA", "Updates-Testing"]}
 CI_VARIANT = {"id": ["bad-id", "", None, 5, "a b"], "uid": ["Misaligned", None, 5], "name": ["", None, 5], "type": ["bogus", None],
               "arches": [[]]}
 IMAGE = {
